@@ -30,6 +30,10 @@ Adopt(e) == Has(e, "adopt") /\ e.adopt
 Kept(e, X, Y) == IF Adopt(e) THEN SameSeq(e.post, e.rv) /\ (Cx(e) => SameSeq(e.posti, e.rvi)) ELSE Unchanged(e, X, Y)
 GoodV(e, X, Y, rx, ry) == ~e.panic /\ Kept(e, X, Y) /\ SameSeq(e.rv, rx) /\ (Cx(e) => SameSeq(e.rvi, ry))
 GoodS(e, X, Y, sx, sy) == ~e.panic /\ Unchanged(e, X, Y) /\ e.ri = sx /\ (Cx(e) => e.rii = sy)
+\* a zero returned by a reduction that accumulates from T::zero() is +0.0 (floating-point element types; logged as `negz`)
+PlusZero(e) == Has(e, "negz") => ~e.negz
+\* Vec64: the threaded dot_f64 on the same operands (default affinity) returns the same exact value, with the same sign of zero
+Threaded(e, val) == Has(e, "rf") => (~e.pf /\ e.rf = val /\ ~e.rfnegz)
 GoodI(e, X, Y, n) == ~e.panic /\ Unchanged(e, X, Y) /\ e.ri = n
 OutOfDomain(e, X, Y) == Unchanged(e, X, Y)             \* no result is defined; the operand must not be written
 Undefined(e, X, Y) == TRUE                             \* documented-undefined reduction of the empty vector: nothing demanded
@@ -73,18 +77,18 @@ Explained(e, X, Y) ==
     [] e.op = "div_scalar" -> /\ ~e.panic /\ Kept(e, X, Y) /\ Len(e.rv) = Len(X)
                               /\ IF Cx(e) THEN Len(e.rvi) = Len(X) /\ CIsQuot(e.rv, e.rvi, X, Y, e.x, Xi(e)) ELSE IsQuot(e.rv, X, e.x)
     [] e.op = "dot" -> IF SameSize(X, e.v)
-                         THEN (IF Cx(e) THEN GoodS(e, X, Y, CDotRe(X, Y, e.v, Vi(e)), CDotIm(X, Y, e.v, Vi(e))) ELSE GoodS(e, X, Y, Dot(X, e.v), 0))
+                         THEN (IF Cx(e) THEN GoodS(e, X, Y, CDotRe(X, Y, e.v, Vi(e)), CDotIm(X, Y, e.v, Vi(e))) ELSE GoodS(e, X, Y, Dot(X, e.v), 0) /\ Threaded(e, Dot(X, e.v))) /\ PlusZero(e)
                          ELSE OutOfDomain(e, X, Y)
-    [] e.op = "sum" -> IF Dom_Total(X) THEN GoodS(e, X, Y, Sum(X), IF Cx(e) THEN Sum(Y) ELSE 0) ELSE Undefined(e, X, Y)
+    [] e.op = "sum" -> IF Dom_Total(X) THEN GoodS(e, X, Y, Sum(X), IF Cx(e) THEN Sum(Y) ELSE 0) /\ PlusZero(e) ELSE Undefined(e, X, Y)
     [] e.op = "product" -> IF Dom_Total(X)
                              THEN PSafe(e, X, Y, 0, Len(X) - 1) /\ (IF Cx(e) THEN LET p == CProductSlice(X, Y, 0, Len(X) - 1) IN GoodS(e, X, Y, p[1], p[2]) ELSE GoodS(e, X, Y, Product(X), 0))
                              ELSE Undefined(e, X, Y)
-    [] e.op = "sum_slice" -> IF Dom_Slice(X, e.a, e.b) THEN GoodS(e, X, Y, SumSlice(X, e.a, e.b), IF Cx(e) THEN SumSlice(Y, e.a, e.b) ELSE 0) ELSE OutOfDomain(e, X, Y)
+    [] e.op = "sum_slice" -> IF Dom_Slice(X, e.a, e.b) THEN GoodS(e, X, Y, SumSlice(X, e.a, e.b), IF Cx(e) THEN SumSlice(Y, e.a, e.b) ELSE 0) /\ PlusZero(e) ELSE OutOfDomain(e, X, Y)
     [] e.op = "product_slice" -> IF Dom_Slice(X, e.a, e.b)
                                    THEN PSafe(e, X, Y, e.a, e.b) /\ (IF Cx(e) THEN LET p == CProductSlice(X, Y, e.a, e.b) IN GoodS(e, X, Y, p[1], p[2]) ELSE GoodS(e, X, Y, ProductSlice(X, e.a, e.b), 0))
                                    ELSE OutOfDomain(e, X, Y)
     \* every range a..b, b = a .. size-1, in one event: rs[k] is the result of the call with bounds (a, a + k - 1)
-    [] e.op = "sum_from" -> /\ ~e.panic /\ Unchanged(e, X, Y) /\ InRange(X, e.a) /\ Len(e.rs) = Len(X) - e.a
+    [] e.op = "sum_from" -> /\ ~e.panic /\ Unchanged(e, X, Y) /\ InRange(X, e.a) /\ Len(e.rs) = Len(X) - e.a /\ PlusZero(e)
                             /\ \A k \in 1..Len(e.rs) : e.rs[k] = SumSlice(X, e.a, e.a + k - 1)
                             /\ Cx(e) => (Len(e.rsi) = Len(e.rs) /\ \A k \in 1..Len(e.rs) : e.rsi[k] = SumSlice(Y, e.a, e.a + k - 1))
     [] e.op = "product_from" -> /\ ~e.panic /\ Unchanged(e, X, Y) /\ InRange(X, e.a) /\ Len(e.rs) = Len(X) - e.a /\ PSafe(e, X, Y, e.a, Len(X) - 1)
@@ -93,8 +97,8 @@ Explained(e, X, Y) ==
     \* absolute value and the exact norms; complex moduli are certified by m >= 0 /\ m^2 = re^2 + im^2 (e.mods)
     [] e.op = "abs" -> IF Cx(e) THEN ~e.panic /\ Kept(e, X, Y) /\ IsModulusVec(e.rv, X, Y) /\ SameSeq(e.rvi, Zeros(Len(X)))
                                 ELSE GoodV(e, X, Y, Abs(X), Y)
-    [] e.op = "norm_1" -> IF Cx(e) THEN IsModulusVec(e.mods, X, Y) /\ GoodS(e, X, Y, IF Len(X) = 0 THEN 0 ELSE Sum(e.mods), 0)
-                                   ELSE GoodS(e, X, Y, Norm1(X), 0)
+    [] e.op = "norm_1" -> PlusZero(e) /\ IF Cx(e) THEN IsModulusVec(e.mods, X, Y) /\ GoodS(e, X, Y, IF Len(X) = 0 THEN 0 ELSE Sum(e.mods), 0)
+                                                  ELSE GoodS(e, X, Y, Norm1(X), 0)
     [] e.op = "norm_inf" -> IF Dom_NormInf(X)
                               THEN (IF Cx(e) THEN IsModulusVec(e.mods, X, Y) /\ GoodI(e, X, Y, MaxFrom(e.mods, 1)) ELSE GoodI(e, X, Y, NormInf(X)))
                               ELSE Undefined(e, X, Y)
